@@ -67,15 +67,17 @@ def mk_distance(rooted, ntips):
         ref = "a"
         return {c if ref not in c else alltips - c for c in clade_set(t) if 1 < len(c) < ntips - 1} | set()
 
+    NBLOCKS = W.nblocks(TOTAL)
+
     def check(code: int) -> bool:
         """
-        pre: 0 <= code < TOTAL
+        pre: 0 <= code < NBLOCKS
         post: _
         """
-        _ = TOTAL
-        code, untraced = W.concrete(code)
+        _ = NBLOCKS
+        code, untraced = W.concrete(code)  # `code` numbers a block of W.BLOCK consecutive inputs (see vlib.w.nblocks)
         with untraced:
-            return body(code)
+            return W.run_block(code, TOTAL, body)
 
     def body(code):
         import cogent3
@@ -106,5 +108,82 @@ def mk_distance(rooted, ntips):
         if not rooted and t1.lin_rajan_moret(t2) != t1.tree_distance(t2, method="lrm"):
             return False
         return True
+
+    return check
+
+
+# ---------------------------------------------------------------- the VALUE of the matching cluster distance (rooted, polytomies allowed)
+def _partitions(items):
+    """all set partitions of a list (first element's block chosen first: no duplicates)"""
+    if not items:
+        yield []
+        return
+    first, rest = items[0], items[1:]
+    for k in range(len(rest) + 1):
+        for others in itertools.combinations(rest, k):
+            block = [first] + list(others)
+            remaining = [x for x in rest if x not in others]
+            for p in _partitions(remaining):
+                yield [block] + p
+
+
+def all_rooted_trees(tips):
+    """every rooted tree (multifurcations allowed, no single-child nodes) on the labelled tips, as nested tuples"""
+    tips = list(tips)
+    if len(tips) == 1:
+        return [tips[0]]
+    out = []
+    for p in _partitions(tips):
+        if len(p) < 2:
+            continue
+        for combo in itertools.product(*[all_rooted_trees(b) for b in p]):
+            out.append(tuple(combo))
+    return out
+
+
+def mk_matching_cluster(ntips, shard=0, nshards=1):
+    """matching_cluster_distance == min over all perfect matchings of the two cluster sets (padded with empty clusters) of the summed
+    symmetric-difference sizes (Bogdanowicz & Giaro 2013), by brute force over permutations"""
+    tips = [chr(ord("a") + i) for i in range(ntips)]
+    trees = all_rooted_trees(tips)
+    firsts = [t for k, t in enumerate(trees) if k % nshards == shard]
+    TOTAL = len(firsts) * len(trees)
+
+    def clusters(t):
+        acc = set()
+        _clades(t, acc)
+        return [c for c in acc if 1 < len(c) < ntips]
+
+    def brute(c1, c2):
+        n = max(len(c1), len(c2))
+        a = list(c1) + [frozenset()] * (n - len(c1))
+        b = list(c2) + [frozenset()] * (n - len(c2))
+        if n == 0:
+            return 0
+        return min(sum(len(x ^ y) for x, y in zip(a, perm)) for perm in itertools.permutations(b))
+
+    NBLOCKS = W.nblocks(TOTAL)
+
+    def check(code: int) -> bool:
+        """
+        pre: 0 <= code < NBLOCKS
+        post: _
+        """
+        _ = NBLOCKS
+        code, untraced = W.concrete(code)  # `code` numbers a block of W.BLOCK consecutive inputs (see vlib.w.nblocks)
+        with untraced:
+            return W.run_block(code, TOTAL, body)
+
+    def body(code):
+        import cogent3
+
+        s1, s2 = firsts[code % len(firsts)], trees[code // len(firsts)]
+        t1, t2 = cogent3.make_tree(treestring=_newick(s1) + ";"), cogent3.make_tree(treestring=_newick(s2) + ";")
+        if not W.reach("end"):
+            return False
+        if len(s1) != 2 or len(s2) != 2:
+            return True  # the metric is defined for rooted (bifurcating-root) trees; polytomies below the root are allowed
+        want = brute(clusters(s1), clusters(s2))
+        return t1.tree_distance(t2, method="matching_cluster") == want and t2.tree_distance(t1, method="mc") == want
 
     return check
